@@ -2,29 +2,35 @@
 //
 // Two kinds of work:
 //
-//  (A) direct drive, in process: the exported comparison entry points of the real code
-//      (CreateDtypeEnclosure, ApplySearchToExpressionFilterSimpleCsg = filterOpOnDataType /
-//      fopOnNumber / compareNumberDte / fopOnString, AlmostEquals, TimeRange.CheckInRange /
-//      CheckRangeOverLap / AreTimesFullyEnclosed, IsSubWordPresent, SPLToRegex + regexp) on
-//      the ENUMERATED matrix  stored value x literal x operator  over a boundary pool; the
-//      observations go to Coq case files and must equal the model (Dte.v, Filter.v).
+//	(A) direct drive, in process: the exported comparison entry points of the real code
+//	    (CreateDtypeEnclosure, ApplySearchToExpressionFilterSimpleCsg = filterOpOnDataType /
+//	    fopOnNumber / compareNumberDte / fopOnString, AlmostEquals, TimeRange.CheckInRange /
+//	    CheckRangeOverLap / AreTimesFullyEnclosed, IsSubWordPresent, SPLToRegex + regexp) on
+//	    the ENUMERATED matrix  stored value x literal x operator  over a boundary pool; the
+//	    observations go to Coq case files and must equal the model (Dte.v, Filter.v).
 //
-//  (B) end to end, one worker process per scenario (fresh data directory): datasets with an
-//      integer, a float, a mixed int/float, a text, a numeric-string, a bool and a mixed
-//      text/number column (values absent in some events), two block layouts; every filter is
-//      rendered to SPL as a search clause and, for numeric comparisons, as `| where`; the
-//      returned id sets are compared (a) with the specification evaluated in Go from the
-//      property text (oracle -> VIOLATION / KNOWN-FINDING classes) and (b) in Coq with
-//      impl_select / where_cmp of the model.
+//	(B) end to end, one worker process per scenario (fresh data directory): datasets with an
+//	    integer, a float, a mixed int/float, a text, a numeric-string, a bool and a mixed
+//	    text/number column (values absent in some events), two block layouts; every filter is
+//	    rendered to SPL as a search clause and, for numeric comparisons, as `| where`; the
+//	    returned id sets are compared (a) with the specification evaluated in Go from the
+//	    property text (oracle -> VIOLATION / KNOWN-FINDING classes) and (b) in Coq with
+//	    impl_select / where_cmp of the model.
 //
-//  (C) the block / column planning layer: SegmentSearchRequest.JoinRequest driven directly on random
-//      plan pairs (oracle: blocks intersected / united, candidate columns of a kept block united; Coq:
-//      FilterPlan.join_req); layouts WITHOUT sentinel events (3 blocks, open segment with raw columns /
-//      rotated segment with dictionary columns) whose numeric columns cover different ranges per block
-//      and per column, queried with all-column numeric comparisons (free-text numbers, `*=N`, `*<N`),
-//      named comparisons and words under AND / OR / NOT in both operand orders; besides the ids the
-//      worker reports the merged plan the real micro-index phase builds (numeric leaves), which must
-//      equal FilterPlan.plan_of in Coq; the ids must equal the search executed under that plan.
+//	(C) the block / column planning layer: SegmentSearchRequest.JoinRequest driven directly on random
+//	    plan pairs (oracle: blocks intersected / united, candidate columns of a kept block united; Coq:
+//	    FilterPlan.join_req); layouts WITHOUT sentinel events (3 blocks, open segment with raw columns /
+//	    rotated segment with dictionary columns) whose numeric columns cover different ranges per block
+//	    and per column, queried with all-column numeric comparisons (free-text numbers, `*=N`, `*<N`),
+//	    named comparisons and words under AND / OR / NOT in both operand orders; besides the ids the
+//	    worker reports the merged plan the real micro-index phase builds (numeric leaves), which must
+//	    equal FilterPlan.plan_of in Coq; the ids must equal the search executed under that plan.
+//
+//	(D) size thresholds of the search path (big.go): segments of ~250 one- or two-event blocks (more than two chunks of
+//	    BLOCK_BATCH_SIZE blocks reach RawSearchSegmentFileWrapper in one request, more than two searcher groups of
+//	    GOMAXPROCS blocks), candidate-block counts on both sides of every multiple of the chunk size; the ids must equal
+//	    the search executed chunk by chunk (FilterChunk.v) in Coq; one block of more than PQMR_INITIAL_SIZE records
+//	    (oracle only).
 //
 // Known-defect classes are generated in their own streams (decimal literal vs integer values,
 // float equality within 1e-4, != / NOT on absent or differently typed values, integer
@@ -43,6 +49,7 @@ import (
 	"os/exec"
 	"path/filepath"
 	"regexp"
+	"runtime"
 	"sort"
 	"strconv"
 	"strings"
@@ -51,9 +58,9 @@ import (
 
 	"github.com/siglens/siglens/pkg/ast/pipesearch"
 	dtu "github.com/siglens/siglens/pkg/common/dtypeutils"
-	sregex "github.com/siglens/siglens/pkg/regex"
 	"github.com/siglens/siglens/pkg/config"
 	eswriter "github.com/siglens/siglens/pkg/es/writer"
+	sregex "github.com/siglens/siglens/pkg/regex"
 	"github.com/siglens/siglens/pkg/segment/memory/limit"
 	segmetadata "github.com/siglens/siglens/pkg/segment/metadata"
 	"github.com/siglens/siglens/pkg/segment/query"
@@ -344,7 +351,7 @@ func ratOfText(s string) *big.Rat {
 	}
 	return r
 }
-func vInt(text string) Val   { return Val{K: kInt, R: ratOfText(text), JSON: text} }
+func vInt(text string) Val { return Val{K: kInt, R: ratOfText(text), JSON: text} }
 func vFloat(text string) Val { // text must be exactly representable? no: the stored value is the float64
 	f, err := strconv.ParseFloat(text, 64)
 	if err != nil {
@@ -525,13 +532,13 @@ func specCmp(op string, v Val, l Lit) bool {
 
 // ---------- expressions ----------
 type Expr struct {
-	Kind  string // cmp, term, any (all-column numeric comparison: free-text number N = `*=N`, `*<N`, ...), and, or, not
-	Bare  bool   // any with "=": written as the bare number
-	Col   string
-	Op    string
-	L     Lit
-	Word  string
-	A, B  *Expr
+	Kind string // cmp, term, any (all-column numeric comparison: free-text number N = `*=N`, `*<N`, ...), and, or, not
+	Bare bool   // any with "=": written as the bare number
+	Col  string
+	Op   string
+	L    Lit
+	Word string
+	A, B *Expr
 }
 
 var colNum = map[string]int{"ci": 1, "cf": 2, "cm": 3, "cs": 4, "cns": 5, "cb": 6, "cx": 7,
@@ -541,10 +548,10 @@ var planCols = []string{"pa", "pb", "pc", "pf", "pt", "pu"}
 var allCols = append(append([]string{}, baseCols...), planCols...)
 
 type Event struct {
-	ID  int
-	TS  uint64
-	F   map[string]Val // as ingested
-	St  map[string]Val // as stored after block type consolidation (filled per layout)
+	ID int
+	TS uint64
+	F  map[string]Val // as ingested
+	St map[string]Val // as stored after block type consolidation (filled per layout)
 }
 
 func specEval(e *Expr, ev *Event) bool {
@@ -675,8 +682,8 @@ func onlyNumericLeaves(e *Expr) bool {
 	}
 	return false
 }
-func numL(text string) Lit             { return Lit{IsNum: true, N: mkNumLit(text)} }
-func strL(p string) Lit                { return Lit{Pat: p} }
+func numL(text string) Lit { return Lit{IsNum: true, N: mkNumLit(text)} }
+func strL(p string) Lit    { return Lit{Pat: p} }
 
 // =====================================================================================
 // pools
@@ -1235,14 +1242,14 @@ func litKind(l Lit) string {
 const T0 = uint64(1700000000000)
 
 type QCase struct {
-	Stream string // main or the known class this query is generated for
-	E      *Expr  // search clause
-	W      *Expr  // optional where stage (a single numeric comparison)
-	Start  uint64
-	End    uint64
-	Model  bool // compared with the model in Coq
-	Tag    string
-	Text   string
+	Stream       string // main or the known class this query is generated for
+	E            *Expr  // search clause
+	W            *Expr  // optional where stage (a single numeric comparison)
+	Start        uint64
+	End          uint64
+	Model        bool // compared with the model in Coq
+	Tag          string
+	Text         string
 	SearchStream string // where-only queries: the stream of the same comparison as a search clause
 	PlanObs      bool   // the worker also reports the block / column plan of the query (numeric leaves only: deterministic)
 }
@@ -1265,6 +1272,8 @@ type Dataset struct {
 	Sparse bool
 	Raw    bool // columns are not dictionary encoded
 	Plan   bool // block/column planning dataset: no sentinels, type-pure columns, distinct value ranges per block
+	Big    bool // more blocks than every batching constant of the search path (big.go); Shared = blocks with the same newest timestamp
+	Shared int
 }
 
 func mkDataset(r *vhlib.Rng, sparse bool, twoBlocks bool) *Dataset {
@@ -1833,8 +1842,8 @@ func mkPlanDataset(r *vhlib.Rng, rotate bool, nBlocks int) *Dataset {
 				}
 				f[col] = v
 			}
-			put("pa", vInt(strconv.Itoa(100*(b+1)+i)))                 // block b: 100(b+1) .. 100(b+1)+7
-			put("pb", vInt(strconv.Itoa(100*((b+1)%nBlocks+1)+2*i)))    // the range pa has in the NEXT block
+			put("pa", vInt(strconv.Itoa(100*(b+1)+i)))               // block b: 100(b+1) .. 100(b+1)+7
+			put("pb", vInt(strconv.Itoa(100*((b+1)%nBlocks+1)+2*i))) // the range pa has in the NEXT block
 			put("pc", vInt(strconv.Itoa(pcPool[(i+3*b+r.Intn(2))%len(pcPool)])))
 			if (i+b)%3 == 0 {
 				put("pf", vFloat(strconv.Itoa(400+100*b+i)+".0")) // an integral float
@@ -2162,7 +2171,16 @@ func evalScenario(sc *scenario, sum *vhlib.Summary, dir string, imports string) 
 					}
 				}
 			}
-			sum.Fail(class, fmt.Sprintf("[%s] %s  range [%d,%d]: missing %v unexpected %v", sc.name, q.Text, q.Start, q.End, miss, extra), describe(q, want, o.Ids))
+			detail := fmt.Sprintf("[%s] %s  range [%d,%d]: missing %v unexpected %v", sc.name, q.Text, q.Start, q.End, miss, extra)
+			if ds.Big && (q.Stream == "main" || repairedClass(q.Stream)) && !strings.HasPrefix(q.Tag, "time/") {
+				// every expected event of some blocks is missing and nothing else is wrong: those candidate blocks were never
+				// searched (a walk over the block list in groups / chunks lost them)
+				if lost := wholeBlocksMissing(ds, want, o.Ids); lost != nil {
+					class = "whole_block_missing_in_many_block_segment"
+					detail += fmt.Sprintf(" = every matching event of block(s) %v of the %d-block segment (block not searched, or all its matching records rejected)", lost, len(ds.Blocks))
+				}
+			}
+			sum.Fail(class, detail, describe(q, want, o.Ids))
 			allFails = append(allFails, fmt.Sprintf("%s\t%s\t%s\tmissing %v unexpected %v", class, sc.name, q.Text, miss, extra))
 		}
 		// the observed block / column plan against plan_of of the model
@@ -2299,6 +2317,33 @@ func evalScenario(sc *scenario, sum *vhlib.Summary, dir string, imports string) 
 	if ds.Plan {
 		// the block layout goes to Coq: the search is executed under the merged block / column plan (FilterPlan.v)
 		pdefs := "Definition all_e : expr := EOr (EAtom (ATerm [] false)) (EAtom (ATerm [] true)).\nDefinition blks : list blockrec := " + ds.coqBlocks() + ".\n"
+		if ds.Big {
+			// the search as the code runs it on a segment with many blocks: the blocks of the merged plan sorted by
+			// descending block number and searched chunk by chunk (FilterChunk.v); index i = returned ids differ,
+			// 1000+i = the chunked search differs from the record-level search of all events
+			imp := strings.Replace(imports, "FilterCheck.", "FilterPlan FilterCheck FilterChunk.", 1)
+			for k := 0; k*90 < len(selItems); k++ {
+				hi := (k + 1) * 90
+				if hi > len(selItems) {
+					hi = len(selItems)
+				}
+				part := selItems[k*90 : hi]
+				sum.WriteCaseFile(dir, fmt.Sprintf("chunksel_%s_%02d", sc.name, k), imp,
+					pdefs+"Definition qs : list (expr * trange * list N) := "+vhlib.CoqListNL(part)+".\n",
+					fmt.Sprintf("check_chunk_select2 %d blks qs 0", bigChunk), len(part))
+			}
+			for k := 0; k*100 < len(planItems); k++ {
+				hi := (k + 1) * 100
+				if hi > len(planItems) {
+					hi = len(planItems)
+				}
+				part := planItems[k*100 : hi]
+				sum.WriteCaseFile(dir, fmt.Sprintf("planof_%s_%02d", sc.name, k), imp,
+					pdefs+"Definition qs : list (expr * trange * option plan) := "+vhlib.CoqListNL(part)+".\n",
+					"check_plan_of blks qs", len(part))
+			}
+			return
+		}
 		for k := 0; k*160 < len(selItems); k++ {
 			hi := (k + 1) * 160
 			if hi > len(selItems) {
@@ -2419,6 +2464,35 @@ func main() {
 		ds := mkPlanDataset(r, l.rotate, l.nb)
 		ds.Raw = l.raw
 		scs = append(scs, &scenario{name: l.name, ds: ds, qs: genPlanQueries(r, ds, cfg.Thorough())})
+	}
+	// segments with more blocks than every batching constant of the search path (big.go): open segment with raw columns,
+	// rotated segment with dictionary columns
+	type bigLayout struct {
+		name   string
+		rotate bool
+		raw    bool
+	}
+	bigLayouts := []bigLayout{{"bigU", false, true}, {"bigR", true, false}}
+	if cfg.Thorough() {
+		bigLayouts = append(bigLayouts, bigLayout{"bigU2", false, false}, bigLayout{"bigR2", true, true})
+	}
+	for _, l := range bigLayouts {
+		r := rng.Fork()
+		shared := 2*bigChunk + 3 + r.Intn(12) // two full chunks and a remainder among the blocks that go to the search together
+		// the tail blocks (distinct newest timestamps) go to the search in groups of GOMAXPROCS: two full groups and a remainder
+		gp := runtime.GOMAXPROCS(0)
+		if gp > 24 {
+			gp = 24
+		}
+		ds := mkBigDataset(r, l.rotate, shared+2*gp+1+r.Intn(gp-1+1), shared)
+		ds.Raw = l.raw
+		scs = append(scs, &scenario{name: l.name, ds: ds, qs: genBigQueries(r, ds, cfg.Thorough())})
+	}
+	{ // one block with more records than the per-block size constants (oracle only)
+		r := rng.Fork()
+		ds := mkWideDataset(r, cfg.Seed%2 == 0)
+		ds.Raw = true
+		scs = append(scs, &scenario{name: "wide", ds: ds, qs: genWideQueries(r, ds)})
 	}
 	joinDrive(cfg, sum, rng.Fork())
 	// each scenario's queries are split over several workers (fresh store each; same data)
